@@ -40,6 +40,8 @@ STRUCT = {
     "ONCE": RT.rule_once,
     "MEMO-KEY": RT.rule_memo_key,
     "AFFINE": RT.rule_affine,
+    "ERR-SPAN": RT.rule_err_span,
+    "ORDER-ARMS": RT.rule_order_arms,
 }
 
 # "K" = the contract automata that serve this property (spec/contract_map.py)
@@ -50,7 +52,7 @@ PROP_RULES = {
     "C04": ["MODE-PAIR", "MODE-PURE", "K", "D:POISON"],
     "C05": ["D:POISON", "D:KEEP", "D:LIFO", "HOOKS-SAVE-REWIND", "HOOKS-WRITERS", "MODE-PURE", "K"],
     "C07": ["K"],
-    "C06": ["D:ALT-LINEAR", "D:ALT-POS", "D:PFAIL", "K"],
+    "C06": ["D:ALT-LINEAR", "D:ALT-POS", "D:PFAIL", "ORDER-ARMS", "ERR-SPAN", "K"],
     "C08": ["K", "D:POISON", "D:ALT-LINEAR", "D:PFAIL"],
     "C09": ["K", "D:POISON", "RECURSE", "AFFINE"],
     "C11": ["K", "D:ALT-LINEAR", "D:ALT-POS", "D:PFAIL", "MEMO-KEY"],
@@ -59,7 +61,7 @@ PROP_RULES = {
     "C14": ["K"],
     "C15": ["K", "SUB-INPUT"],
     "C16": ["K", "SUB-INPUT", "D:ALT-LINEAR", "D:PFAIL"],
-    "C17": ["K", "D:ALT-LINEAR", "D:ALT-POS"],
+    "C17": ["K", "D:ALT-LINEAR", "D:ALT-POS", "ERR-SPAN"],
     "C18": ["HOOKS-WRITERS", "HOOKS-TOKEN", "HOOKS-SAVE-REWIND", "SUB-INPUT", "D:POISON", "D:KEEP", "K"],
     "C19": ["UNSAFE-INV", "MAYBEUNINIT"],
     "C20": ["D:PFAIL", "RECURSE", "K"],
